@@ -43,6 +43,14 @@ def bounds(rng, w, n, signed):
         hi = rng.randrange(0, 1 << rng.randrange(1, W - 1))        # spanning zero
     elif c == 4:
         lo, hi = lo_lim, hi_lim - rng.randrange(0, 3)
+    elif c == 6:
+        # range size M - 2^j (and M - 2^j +- 1): the rejection count 2^BITS mod range needs a carry across
+        # digits; j at digit boundaries is likely (added after seeded change C20-r4m1)
+        j = rng.choice([w * rng.randrange(1, n + 1) % W, rng.randrange(W)])
+        size = max(1, M - (1 << j) + rng.choice([0, 0, 0, 1, -1]))
+        lo = lo_lim + rng.choice([0, 0, rng.randrange(0, M - size + 1)])
+        lo = min(lo, hi_lim - size + 1)
+        hi = lo + size - 1
     elif c == 5:
         lo = rng.randrange(lo_lim, hi_lim + 1)
         hi = rng.randrange(lo_lim, hi_lim + 1)        # possibly empty / reversed -> panic
@@ -93,6 +101,25 @@ def gen(rng, tier):
                     st = v.to_bytes(BY, "little") + stream(rng, BY, 3)
                     for op in ("sample_single_inclusive", "uniform_new_inclusive", "gen_range_inclusive"):
                         yield f"{op} {s}{cfg} {hx(lo)} {hx(hi)} {st.hex()}", "zone-boundary"
+    # long rejection runs: the same (normally rejected) word k times, then filler.  "For every RNG output
+    # stream" includes streams that are rejected 64, 65, 200 times in a row (added after seeded change C20-r4m2)
+    for cfg in ["8x1", "8x3", "16x3", "64x2", "32x2"] + (["8x17", "64x3"] if tier == "thorough" else []):
+        w, n = wn(cfg)
+        W = w * n
+        BY = W // 8
+        M = 1 << W
+        for s in "ui":
+            lo_lim = -(M >> 1) if s == "i" else 0
+            for k in (1, 7, 63, 64, 65, 66, 127, 128, 129, 200):
+                j = rng.randrange(1, W)
+                size = (1 << j) + rng.choice([1, 1, 2, 3])          # just above a power of two: ~half of all words rejected
+                lo = lo_lim + rng.choice([0, rng.randrange(0, M - size)])
+                hi = lo + size - 1
+                bw = boundary_words(rng, W, size)
+                for v in ([1] + bw[1:2] + bw[6:7]):
+                    st = v.to_bytes(BY, "little") * k + stream(rng, BY, 2) + b"\x00" * BY
+                    for op in ("sample_single_inclusive", "uniform_new_inclusive", "gen_range_inclusive", "gen_range"):
+                        yield f"{op} {s}{cfg} {hx(pat(lo, W))} {hx(pat(hi, W))} {st.hex()}", "rejection-run-%d" % k
     reps = 60 if tier == "thorough" else 10
     for cfg in cfgs(tier):
         w, n = wn(cfg)
